@@ -47,10 +47,10 @@ theorem payHeads_sub : ∀ b ∈ payHeads, b ∈ allHeads := fun _ hb => List.me
 
 /-! ### cancel -/
 
-theorem cancelOrder_eq {s s' : Store} {id : UInt64} {signer : Bytes} (h : cancelOrder s id signer = some s') :
+theorem cancelOrder_eq {s s' : Store} {id : UInt64} {signer : Bytes} {up : Bool}
+    (h : cancelOrder s id signer up = some s') :
     ∃ o, getOrderFromStore s id = some o ∧ s' = deleteAndDeIndexOrder s o := by
   unfold cancelOrder at h
-  split_ifs at h
   split at h
   · cases h
   · next o ho =>
@@ -58,19 +58,19 @@ theorem cancelOrder_eq {s s' : Store} {id : UInt64} {signer : Bytes} (h : cancel
     cases h
     exact ⟨o, ho, rfl⟩
 
-theorem inv_cancelOrder {s s' : Store} {id : UInt64} {signer : Bytes} (hinv : IndexInv s)
-    (h : cancelOrder s id signer = some s') : IndexInv s' := by
+theorem inv_cancelOrder {s s' : Store} {id : UInt64} {signer : Bytes} {up : Bool} (hinv : IndexInv s)
+    (h : cancelOrder s id signer up = some s') : IndexInv s' := by
   obtain ⟨o, ho, rfl⟩ := cancelOrder_eq h
   have := getOrderFromStore_eq (indexInvF_iff.mp hinv).1 ho
   exact inv_delete hinv (by rw [this.2]; exact this.1)
 
-theorem touches_cancelOrder {s s' : Store} {id : UInt64} {signer : Bytes}
-    (h : cancelOrder s id signer = some s') : Touches s s' orderHeads := by
+theorem touches_cancelOrder {s s' : Store} {id : UInt64} {signer : Bytes} {up : Bool}
+    (h : cancelOrder s id signer up = some s') : Touches s s' orderHeads := by
   obtain ⟨o, _, rfl⟩ := cancelOrder_eq h
   exact touches_deleteAndDeIndexOrder s o
 
-theorem noNew_cancelOrder {s s' : Store} {id : UInt64} {signer : Bytes}
-    (h : cancelOrder s id signer = some s') : NoNew s s' := by
+theorem noNew_cancelOrder {s s' : Store} {id : UInt64} {signer : Bytes} {up : Bool}
+    (h : cancelOrder s id signer up = some s') : NoNew s s' := by
   obtain ⟨o, _, rfl⟩ := cancelOrder_eq h
   exact noNew_delete s o
 
@@ -91,7 +91,7 @@ theorem cancelAll_good (s : Store) (m : UInt32) (signer : Bytes) :
     (fun a => ⟨id, Touches.refl _ _, NoNew.refl _⟩)
     (fun a b c h1 h2 => ⟨fun h => h2.1 (h1.1 h), h1.2.1.trans h2.2.1, h1.2.2.trans h2.2.2⟩) _ ?_ _ s
   intro a e
-  cases hc : cancelOrder a e.1 signer with
+  cases hc : cancelOrder a e.1 signer false with
   | none => exact ⟨id, Touches.refl _ _, NoNew.refl _⟩
   | some a' => exact ⟨fun h => inv_cancelOrder h hc, touches_cancelOrder hc, noNew_cancelOrder hc⟩
 
